@@ -232,6 +232,19 @@ pub fn run(tier: &str, seed: u64, replay: Option<String>) -> i32 {
                 n_multi += 1;
             }
         }
+        // scale: every link of the model broken at once, and every second / third one (hundreds
+        // of warnings for the larger models: limits, batching, early exits)
+        if links.len() >= 2 {
+            for (stride, to) in [(1usize, "fresh"), (2, "nil"), (3, "fresh"), (7, "fresh")] {
+                let edits: Vec<MEdit> = links.iter().step_by(stride).map(|p| MEdit::IdRedirected { ptr: p.clone(), to: to.into() }).collect();
+                let st = json!({"base": b, "edits": edits, "what": "multi"});
+                if small || stride == 1 {
+                    ind_steps.push(st.clone());
+                }
+                steps.push(st);
+                n_multi += 1;
+            }
+        }
         // every link of one element broken at once (several warnings carry the same id)
         let mut by_elem: BTreeMap<String, Vec<String>> = BTreeMap::new();
         for p in &links {
